@@ -18,6 +18,7 @@ import LfsModel.Hooks
 import LfsModel.Track
 import LfsModel.PushModel
 import LfsModel.PrePush
+import LfsModel.CredCache
 import LfsModel.Gen
 import LfsModel.GenApi
 import LfsModel.ApiReq
@@ -209,6 +210,27 @@ def c10 : List String → String
           Rd2.runAuth w fill 4 (access == "basic") { node := 0, lst := l0, auth := none, implicit := cr == "u" && entry == "api" }   -- only the API request is built from the LFS URL (with its userinfo)
       if tr.isEmpty then "-" else String.intercalate " " (tr.map showReq)
     | _, _ => "bad-op"
+  | ["cache", ops] =>
+    let key (p h pa : String) : Option CredCache.Key :=
+      match unhex p, unhex h, unhex pa with
+      | some a, some b, some c => some ⟨a, b, c⟩
+      | _, _, _ => none
+    let parseOp (t : String) : Option CredCache.Op :=
+      match t.splitOn ":" with
+      | ["F", p, h, pa] => (key p h pa).map .fill
+      | ["R", p, h, pa] => (key p h pa).map .reject
+      | ["A", p, h, pa, sec] => match key p h pa, sec.toNat? with
+        | some k, some n => some (.approve ⟨k, n⟩)
+        | _, _ => none
+      | _ => none
+    match (ops.splitOn ",").mapM parseOp with
+    | some os =>
+      let outs := (CredCache.run [] os).2
+      String.intercalate "," ((os.zip outs).map fun (op, o) => match op, o with
+        | .fill _, some v => s!"hit:{v.secret}"
+        | .fill _, none => "miss"
+        | _, _ => "-")
+    | none => "bad-op"
   | _ => "bad-op"
 
 def parseDlResp (s : String) : Option Dl.Resp :=
